@@ -29,7 +29,7 @@ func (s *sharedEntryAttributes) toXmlInternal(parent *etree.Element, onlyNewOrUp
 	switch s.schema.GetSchema().(type) {
 	case nil:
 		// This case represents a key level element. So no schema present. all child attributes need to be adedd directly to the parent element, since the key levels are not visible in the resulting xml.
-		if s.shouldDelete() {
+		if s.shouldDelete() || s.listEntryKeysShouldDelete() {
 			// If the element is to be deleted
 			// add the delete operation to the parent element
 			utils.AddXMLOperation(parent, utils.XMLOperationDelete, operationWithNamespace, useOperationRemove)
@@ -227,6 +227,32 @@ func (s *sharedEntryAttributes) toXmlInternal(parent *etree.Element, onlyNewOrUp
 		return true, nil
 	}
 	return false, fmt.Errorf("unable to convert to xml (%s)", s.Path())
+}
+
+// listEntryKeysShouldDelete returns true if s is a list entry (last key level) with all its key leaves being deleted.
+// An entry cannot exist without its keys, so the entry as a whole is deleted. This is the
+// criterion getAggregatedDeletes() applies for the deletes of the other encodings.
+func (s *sharedEntryAttributes) listEntryKeysShouldDelete() bool {
+	ancestor, level := s.GetFirstAncestorWithSchema()
+	if ancestor == nil {
+		return false
+	}
+	keys := ancestor.GetSchemaKeys()
+	if len(keys) == 0 || level != len(keys) {
+		return false
+	}
+	found := false
+	for _, n := range keys {
+		c, exists := s.childs.GetEntry(n)
+		if !exists {
+			continue
+		}
+		if !c.shouldDelete() {
+			return false
+		}
+		found = true
+	}
+	return found
 }
 
 // namespaceIsEqual takes the two given Entries, gets the namespace
